@@ -19,17 +19,24 @@ far as it is TRUE.  Helper files: `Proofs/SearchRepDeep{Inv,Node,Root,Hash}.lean
    `repSearch d b0 ucis []` and the announced move attains it — under the explicit, decidable hypotheses `RHyp b0 T d`.  Besides the
    hash hypotheses of depth 1 (non-zero hashes, no collision of a node with the positions of its line inside the window, now for all
    nodes of the `d`-ply tree) there is ONE hypothesis of a new kind, `RHashInj b0 T d`: a node at which the search stores and a node
-   at which it probes that have the same hash stand at the same ply, show the same position AND HAVE THE SAME LINE (keys).
-3. `rhashInj_le2`, `go_depth2_eq_repSpec` (and `go_depth_le2_eq_repSpec`) – for `d ≤ 2` that hypothesis is a THEOREM: the nodes at
-   which the search stores (plies 0 and 1) have one line each.  `go depth 2` after a game reports `scoreFromValue (mm repGame 2 root)`
-   and plays a move attaining it, under `DeepHyp`: no hash collision in the ≤ 2-ply neighbourhood (`NoCollision`), non-zero hashes,
-   no collision of a node with its line inside the window, no 16-bit wrap, material ≤ 64, clock budget.  What the table can hit at
-   depth 2 (checked against `Model/Search.lean`): iteration 1 stores the root with draft 1; iteration 2 probes it with remaining 2
-   (no cut, only the move hint); ply-1 nodes are stored with draft 1 and probed with remaining 1 – a hit needs a sibling with the
-   same position, which has the same line; ply-2 nodes are probed with remaining 0, so ANY entry with their hash would be used – the
-   root and the ply-1 nodes have another side to move resp. a vacated square (`key_cross02`), and ply-2 nodes are never stored.
-4. For `d = 3` `RHashInj b0 T 3` remains a hypothesis (decidable: `injB`; it holds on the examples below).  For `d ≥ 4` it is FALSE
-   wherever two move orders transpose, and then the property itself fails: see `ghi_witness` at the end.
+   at which it probes that have the same hash stand at the same ply, show the same position AND HAVE THE SAME LINE INSIDE THE WINDOW of
+   the repetition test (the keys of the last `halfmove` positions: `mm_rep_window` – older positions are never compared again).
+3. `rhashInj_le3`, `go_depth2_eq_repSpec`, `go_depth3_eq_repSpec` (and `go_depth_le3_eq_repSpec`) – for `d ≤ 3` that hypothesis is a
+   THEOREM.  `go depth 2` (resp. 3) after a game reports `scoreFromValue (mm repGame d root)` and plays a move attaining it, under
+   `DeepHyp`: no hash collision in the ≤ d-ply neighbourhood (`NoCollision`), non-zero hashes, no collision of a node with its line
+   inside the window, no 16-bit wrap, material ≤ 64, clock budget.  What the table can hit (checked against `Model/Search.lean`):
+   iteration 1 stores the root with draft 1; iteration 2 probes it with remaining 2 (no cut, only the move hint); ply-1 nodes are
+   stored with draft 1 and probed with remaining 1 – a hit needs a sibling with the same position, which has the same line; ply-2
+   nodes are probed with remaining 0, so ANY entry with their hash would be used – but the ply-1 nodes have the other side to move,
+   the root differs by a vacated square (`key_cross02`), and ply-2 nodes are never stored.  At depth 3 ply-2 nodes ARE stored
+   (draft 1) and two lines CAN reach one ply-2 position (`Ne4xd6 e7xd6` / `Ne4xf6 e7xf6` with black pawns on d6, e7, f6) – but the
+   lines differ in the key of the ply-1 position only, which the node never looks at (distance 1: other side to move) and which
+   its children never match (`C08Transp.transp13`: a ply-1 position does not recur at ply 3); ply-3 nodes probe with remaining 0,
+   and no stored node has their position (`sameDraft_le3`).
+4. For `d ≥ 4` `RHashInj` is a genuine restriction: it fails wherever two move orders transpose inside the window or a cycle returns
+   to a stored position (`Example`: the king-and-queen shuffle at depth 4).  Often the value still agrees; `Props/C10DeepGhi.lean`
+   shows a game on which at depth 5 it does NOT (`ghi_witness`) while the same position without history agrees: graph-history
+   interaction – a precise reason why the exactness claim of the property cannot extend to arbitrary depth.
 -/
 namespace Inkayaku.C10Deep
 open Inkayaku.Board Inkayaku.Eval Inkayaku.WF Inkayaku.BoardCongr Inkayaku.Minimax Inkayaku.SpecSearch Inkayaku.Search
@@ -90,16 +97,16 @@ theorem go_depth_eq_repSpec {b0 : Board} {ucis : List String} {T : List Board} (
 
 #print axioms go_depth_eq_repSpec
 
-/-! ## 3. depth ≤ 2: no line-dependent hypothesis -/
+/-! ## 3. depth ≤ 3: no line-dependent hypothesis -/
 
-/-- **for `D ≤ 2` the line-dependent injectivity is a theorem**: from the absence of hash collisions in the ≤ 2-ply neighbourhood
+/-- **for `D ≤ 3` the line-dependent injectivity is a theorem**: from the absence of hash collisions in the ≤ 3-ply neighbourhood
 of the last game position (`NoCollision`: equal hash ⇒ equal placement, side to move, rights, e.p. file) -/
-theorem rhashInj_le2 {b0 : Board} {T : List Board} {D : Nat} (hD : D ≤ 2) (h : DeepHyp b0 T D) : RHashInj b0 T D :=
-  (rhyp_le2 hD h).inj
+theorem rhashInj_le3 {b0 : Board} {T : List Board} {D : Nat} (hD : D ≤ 3) (h : DeepHyp b0 T D) : RHashInj b0 T D :=
+  (rhyp_le3 hD h).inj
 
-/-- `go depth d`, `d ≤ 2`, after a game -/
-theorem go_depth_le2_eq_repSpec {b0 : Board} {ucis : List String} {T : List Board} (s₀ : St) (d maxIter : Nat) (hd1 : 1 ≤ d)
-    (hd2 : d ≤ 2) (hmi : d ≤ maxIter) (H : DeepHyp b0 T d) (hgame : gameBoards b0 ucis = some (b0 :: T))
+/-- `go depth d`, `d ≤ 3`, after a game -/
+theorem go_depth_le3_eq_repSpec {b0 : Board} {ucis : List String} {T : List Board} (s₀ : St) (d maxIter : Nat) (hd1 : 1 ≤ d)
+    (hd3 : d ≤ 3) (hmi : d ≤ maxIter) (H : DeepHyp b0 T d) (hgame : gameBoards b0 ucis = some (b0 :: T))
     (hlegal : genLegal (lastBoard b0 T) ≠ []) (hns : s₀.nsPerNode = none)
     (hN : (goCmd (setPosition s₀ b0 ucis) { depth := some d } maxIter).negamaxNodes < s₀.pollPeriod ∨ s₀.pending = []) :
     ∃ v bm, repSearch d b0 ucis [] = some (lastBoard b0 T, v, bm) ∧ v = mm repGame d (rootNode b0 T []) ∧
@@ -108,7 +115,7 @@ theorem go_depth_le2_eq_repSpec {b0 : Board} {ucis : List String} {T : List Boar
           .bestMove (some m) (pv[1]?) ::
           .info (some d) t nodes (some (scoreFromValue v (lastBoard b0 T))) (some pv) :: older ∧
         m ∈ genLegal (lastBoard b0 T) ∧ - mm repGame (d - 1) (childNode b0 T m) = v ∧ pv[0]? = some m :=
-  go_depth_eq_repSpec s₀ d maxIter hd1 hmi (rhyp_le2 hd2 H) hgame H.inv hlegal hns hN
+  go_depth_eq_repSpec s₀ d maxIter hd1 hmi (rhyp_le3 hd3 H) hgame H.inv hlegal hns hN
 
 /-- **`go depth 2` after `position <b0> moves u1 … un` reports `scoreFromValue (mm repGame 2 root)` and plays a move attaining it.**
 Hypotheses `DeepHyp b0 T 2`: the game is a line of legal moves, clock budget `half-move clock + n + 202 ≤ 4095`, no 16-bit wrap of
@@ -125,10 +132,88 @@ theorem go_depth2_eq_repSpec {b0 : Board} {ucis : List String} {T : List Board} 
           .bestMove (some m) (pv[1]?) ::
           .info (some 2) t nodes (some (scoreFromValue v (lastBoard b0 T))) (some pv) :: older ∧
         m ∈ genLegal (lastBoard b0 T) ∧ - mm repGame 1 (childNode b0 T m) = v ∧ pv[0]? = some m :=
-  go_depth_le2_eq_repSpec s₀ 2 maxIter (by omega) (by omega) hmi H hgame hlegal hns (Or.inr hpd)
+  go_depth_le3_eq_repSpec s₀ 2 maxIter (by omega) (by omega) hmi H hgame hlegal hns (Or.inr hpd)
 
-#print axioms rhashInj_le2
-#print axioms go_depth_le2_eq_repSpec
+/-- **`go depth 3` after a game**: the same with the three-ply neighbourhood -/
+theorem go_depth3_eq_repSpec {b0 : Board} {ucis : List String} {T : List Board} (s₀ : St) (maxIter : Nat) (hmi : 3 ≤ maxIter)
+    (H : DeepHyp b0 T 3) (hgame : gameBoards b0 ucis = some (b0 :: T)) (hlegal : genLegal (lastBoard b0 T) ≠ [])
+    (hns : s₀.nsPerNode = none) (hpd : s₀.pending = []) :
+    ∃ v bm, repSearch 3 b0 ucis [] = some (lastBoard b0 T, v, bm) ∧ v = mm repGame 3 (rootNode b0 T []) ∧
+      ∃ (pv : List Move) (nodes : Nat) (t : Option Nat) (m : Move) (older : List Out),
+        (goCmd (setPosition s₀ b0 ucis) { depth := some 3 } maxIter).out =
+          .bestMove (some m) (pv[1]?) ::
+          .info (some 3) t nodes (some (scoreFromValue v (lastBoard b0 T))) (some pv) :: older ∧
+        m ∈ genLegal (lastBoard b0 T) ∧ - mm repGame 2 (childNode b0 T m) = v ∧ pv[0]? = some m :=
+  go_depth_le3_eq_repSpec s₀ 3 maxIter (by omega) (by omega) hmi H hgame hlegal hns (Or.inr hpd)
+
+#print axioms rhashInj_le3
+#print axioms go_depth_le3_eq_repSpec
 #print axioms go_depth2_eq_repSpec
+#print axioms go_depth3_eq_repSpec
+
+/-! ## non-vacuity
+
+The king-and-queen shuffle of `C10Search.Example` (`7k/8/8/8/8/8/8/KQ6 w - - 0 1`, `Qb1-b3 Kh8-g7 Qb3-b1 Kg7-h8` once and then
+`Qb1-b3 Kh8-g7 Qb3-b1`; Black to move; `Kg7-h8` completes a threefold).  `deepHypB` / `rhypB` are the executable conjunctions of
+`DeepHyp` / `RHyp` (`deepHyp_of_check`, `rhyp_of_check`: soundness; the 139 nodes of the two-ply tree are enumerated, each hash is
+computed once).  For depth 2 they are evaluated IN THE KERNEL and the theorem is instantiated; for depth 3 (and a position of the
+perpetual-check corpus in which the rule DECIDES the value) by the compiler (`#guard`), together with the conclusion. -/
+namespace Example
+open Inkayaku.C10Search.Example (kq shuffle kqT kqLast boardOf tailOf lastInfo announced)
+open Inkayaku.C10Rep.Example (perp agreesRep)
+
+set_option maxRecDepth 100000 in
+/-- the hypotheses of `go_depth2_eq_repSpec` hold for the shuffle (kernel evaluation) -/
+theorem kq_deep2 : DeepHyp kq kqT 2 ∧ gameBoards kq shuffle = some (kq :: kqT) := deepHyp_of_check (by decide +kernel)
+
+/-- `go depth 2` after the shuffle -/
+example : ∃ v bm, repSearch 2 kq shuffle [] = some (kqLast, v, bm) ∧ v = mm repGame 2 (rootNode kq kqT []) ∧
+    ∃ (pv : List Move) (nodes : Nat) (t : Option Nat) (m : Move) (older : List Out),
+      (goCmd (setPosition initial kq shuffle) { depth := some 2 } 64).out =
+        .bestMove (some m) (pv[1]?) :: .info (some 2) t nodes (some (scoreFromValue v kqLast)) (some pv) :: older ∧
+      m ∈ genLegal kqLast ∧ - mm repGame 1 (childNode kq kqT m) = v ∧ pv[0]? = some m :=
+  go_depth2_eq_repSpec initial 64 (by decide) kq_deep2.1 kq_deep2.2 (by decide +kernel) rfl rfl
+
+/-- the derived hypothesis bundle of the general theorem, and with it `RHashInj kq kqT 2` -/
+example : RHyp kq kqT 2 := rhyp_le2 (by decide) kq_deep2.1
+example : RHashInj kq kqT 2 := rhashInj_le3 (by decide) kq_deep2.1
+
+/-- hypotheses `RHyp b0 T d` hold (executable form) and `go depth d` of the search model reports the specification value and a
+move attaining it -/
+def agreesDeep (d : Nat) (b0 : Board) (ucis : List String) : Bool :=
+  let T := tailOf b0 ucis
+  let bn := lastBoard b0 T
+  let s := goCmd (setPosition initial b0 ucis) { depth := some d }
+  rhypB b0 ucis T d && !(genLegal bn).isEmpty &&
+  match repSearch d b0 ucis [] with
+  | some (b, v, _) =>
+    lastInfo s.out == some (d, scoreFromValue v b) &&
+    (match announced s.out with
+     | some m => decide (m ∈ genLegal bn) && (- mm repGame (d - 1) (childNode b0 T m) == v)
+     | none => false)
+  | none => false
+
+-- depth 2 and 3 on the shuffle and its prefixes: Black takes the repetition (`cp 50`) a queen down
+#guard agreesDeep 2 kq shuffle && agreesDeep 3 kq shuffle
+#guard (repSearch 2 kq shuffle []).map (fun r => (r.2.1, r.2.2.map Move.uci)) == some (50, some "g7h8")
+#guard agreesDeep 2 kq (shuffle.take 6) && agreesDeep 3 kq (shuffle.take 5) && agreesDeep 2 kq []
+-- the hypotheses `DeepHyp` of `go_depth2_eq_repSpec` / `go_depth3_eq_repSpec` in their own executable form
+#guard deepHypB kq shuffle kqT 2 && deepHypB kq (shuffle.take 6) (tailOf kq (shuffle.take 6)) 2 && deepHypB kq shuffle kqT 3
+-- `5Q2/7k/q7/8/1r6/8/2P4K/8 w - - 0 40` (corpus/perpetuals.txt): the third occurrence lies two plies below the root, the rule
+-- decides the depth-2 value (`cp50`, without the rule `cp120`); one ply earlier it decides the depth-3 value (`cp50` / `cp-100`)
+#guard agreesDeep 2 perp ["f8f7", "h7h8", "f7f8", "h8h7", "f8f7", "h7h8"]
+#guard agreesDeep 3 perp ["f8f7", "h7h8", "f7f8", "h8h7", "f8f7"]
+#guard RepSpec.handleRepSearch ["5Q2/7k/q7/8/1r6/8/2P4K/8_w_-_-_0_40", "3", "f8f7", "h7h8", "f7f8", "h8h7", "f8f7"] == "cp50 cp-100"
+-- at depth 4 the hypothesis `RHashInj kq kqT 4` fails: `Kg7-f7 Qb1-b2 Kf7-e7` and `Kg7-f8 Qb1-b2 Kf8-e7` reach one position three
+-- plies below the root over lines with different keys inside the window (the clock is 10: no capture, no pawn move) …
+#guard (let A := (gameBoards kqLast ["g7f7", "b1b2", "f7e7"]).getD []
+        let B := (gameBoards kqLast ["g7f8", "b1b2", "f8e7"]).getD []
+        A.length == 4 && B.length == 4 && Zobrist.hash (A.getLastD kq) == Zobrist.hash (B.getLastD kq) &&
+        decide (vis (A.getLastD kq) = vis (B.getLastD kq)) && (A.getLastD kq).halfmove == 10 &&
+        A.dropLast.map key != B.dropLast.map key)
+-- … although the value still agrees here (see `Props/C10DeepGhi.lean` for a game on which it does not)
+#guard agreesRep 4 kq shuffle
+
+end Example
 
 end Inkayaku.C10Deep
